@@ -216,33 +216,33 @@ func (l *List) M__getitem__(key Object) (Object, error) {
 
 func (l *List) M__setitem__(key, value Object) (Object, error) {
 	if slice, ok := key.(*Slice); ok {
+		// Materialise the new items first: the value may be the list
+		// itself, a failing iterable must leave the list untouched and
+		// an iterator may change the length of the list
+		newItems, err := SequenceTuple(value)
+		if err != nil {
+			return nil, err
+		}
 		start, stop, step, slicelength, err := slice.GetIndices(len(l.Items))
 		if err != nil {
 			return nil, err
 		}
 		if step == 1 {
-			// Make a copy of the tail
-			tailSlice := l.Items[stop:]
-			tail := make([]Object, len(tailSlice))
-			copy(tail, tailSlice)
-			l.Items = l.Items[:start]
-			err = l.ExtendSequence(value)
-			if err != nil {
-				return nil, err
+			if stop < start {
+				stop = start
 			}
-			l.Items = append(l.Items, tail...)
+			tail := l.Items[stop:]
+			items := make([]Object, 0, start+len(newItems)+len(tail))
+			items = append(items, l.Items[:start]...)
+			items = append(items, newItems...)
+			items = append(items, tail...)
+			l.Items = items
 		} else {
-			newItems, err := SequenceTuple(value)
-			if err != nil {
-				return nil, err
-			}
 			if len(newItems) != slicelength {
 				return nil, ExceptionNewf(ValueError, "attempt to assign sequence of size %d to extended slice of size %d", len(newItems), slicelength)
 			}
-			j := 0
-			for i := start; i < stop; i += step {
+			for i, j := start, 0; j < slicelength; i, j = i+step, j+1 {
 				l.Items[i] = newItems[j]
-				j++
 			}
 		}
 	} else {
@@ -263,17 +263,23 @@ func (a *List) DelItem(i int) {
 // Removes items from a list
 func (a *List) M__delitem__(key Object) (Object, error) {
 	if slice, ok := key.(*Slice); ok {
-		start, stop, step, _, err := slice.GetIndices(len(a.Items))
+		start, stop, step, slicelength, err := slice.GetIndices(len(a.Items))
 		if err != nil {
 			return nil, err
 		}
 		if step == 1 {
+			if stop < start {
+				stop = start
+			}
 			a.Items = append(a.Items[:start], a.Items[stop:]...)
 		} else {
-			j := 0
-			for i := start; i < stop; i += step {
-				a.DelItem(i - j)
-				j++
+			for i, j := start, 0; j < slicelength; i, j = i+step, j+1 {
+				if step > 0 {
+					// the j items already removed were below this one
+					a.DelItem(i - j)
+				} else {
+					a.DelItem(i)
+				}
 			}
 		}
 	} else {
